@@ -1,17 +1,20 @@
 #!/bin/sh
 # MANIFEST.setup_cmd: build the framework offline from files on disk (Lean proofs + drivers, Go harness).
-set -e
+# Every ./check rebuilds what it needs anyway; this only warms the caches, so one broken target must not stop the rest.
 cd "$(dirname "$0")"
 export GOFLAGS=-mod=mod GOPROXY=off GOSUMDB=off GOTOOLCHAIN=local
 mkdir -p .work/bin lean/Generated
+sh harness/mkmod.sh
 for f in checks/*.json; do
   [ -f "$f" ] || continue
-  python3 - "$f" <<'PY' | while read -r cmd; do sh -c "$cmd" || true; done
+  python3 - "$f" <<'PY' | while read -r cmd; do sh -c "$cmd" || echo "setup: pre-step failed: $cmd"; done
 import json,sys
 for c in json.load(open(sys.argv[1])).get("pre",[]): print(c)
 PY
 done
-(cd lean && lake build $(ls Props/*.lean | sed 's#/#.#; s#\.lean$##') $(ls Driver/C*.lean | sed 's#Driver/C#svd_c#; s#\.lean$##'))
-sh harness/mkmod.sh
-for d in harness/cmd/*/; do n=$(basename "$d"); (cd harness && go build -tags verif -o ../.work/bin/$n ./cmd/$n); done
+for p in $(python3 -c "import json;print(' '.join(c['property_id'] for c in json.load(open('MANIFEST.json'))['checks']))"); do
+  l=$(echo "$p" | tr 'A-Z' 'a-z')
+  (cd lean && lake build Props.$p svd_$l) || echo "setup: lake build failed for $p"
+  if [ -d harness/cmd/vh_$l ]; then (cd harness && go build -tags verif -o ../.work/bin/vh_$l ./cmd/vh_$l) || echo "setup: go build failed for $p"; fi
+done
 echo setup done
